@@ -354,6 +354,21 @@ def ob_bf_constants():
     e2.P[0] ^= 1
     if BB.BlowfishEngine().P[0] != words[0]:
         return _v("Blowfish engines share their P array", "blowfish", "replay_blowfish")
+    # ... nor their S-boxes (nested lists), also after a real key schedule has run on another engine (both engine classes)
+    from passlib.crypto._blowfish import unrolled as BU
+    for cls in (BB.BlowfishEngine, BU.BlowfishEngine):
+        e3 = cls()
+        for bx in range(4):
+            e3.S[bx][7] ^= 1
+        e3 = cls()
+        e3.eks_salted_expand(list(range(1, 19)), [5, 6, 7, 8])
+        e3.expand(list(range(1, 19)))
+        fresh = cls()
+        flat = list(fresh.P) + [w for box in fresh.S for w in box]
+        if flat != words:
+            i = [k for k in range(len(words)) if flat[k] != words[k]][0]
+            return _v("a new %s.BlowfishEngine starts from word %d = %#x instead of pi's %#x after another engine ran its key schedule "
+                      "(engines share S-box storage)" % (cls.__module__.split(".")[-1], i, flat[i], words[i]), "blowfish", "replay_blowfish")
     return ok("initial P array and S-boxes == first 1042 words of the hex expansion of pi; engines do not share state", paths=1042,
               verdict="finite-exhaustive")
 
